@@ -594,7 +594,7 @@ def byname_cases(draw):
     sel = draw(selections(_names(fields)))
     return {"fields": fields, "shape": draw(sa.array_shapes), "seed": draw(sa.seeds), "sel": sel,
             "modes": [draw(st.sampled_from(DEFAULT_MODES)) for _ in sel],
-            "container": _container_for(draw, sel, ["list", "list", "array", "scalar"]),
+            "container": _container_for(draw, sel, ["list", "list", "tuple", "array", "scalar"]),
             "bare": draw(st.booleans())}
 
 
